@@ -157,7 +157,7 @@ fn single_main(body: Vec<Stmt>, extra: Vec<FuncDef>) -> Program {
 fn run_template(c: &mut Choices) -> (String, Program, RunCfg, Option<&'static str>) {
     let mut cfg = RunCfg::default();
     cfg.max_instr = 200_000;
-    let kind = c.draw(12);
+    let kind = c.draw(15);
     match kind {
         0 => {
             // unbounded recursion: f(n) { return f(n + 1) }
@@ -245,6 +245,62 @@ fn run_template(c: &mut Choices) -> (String, Program, RunCfg, Option<&'static st
             let e = [Expr::CallNative("nope".into(), vec![]), Expr::CallNative("fail".into(), vec![]), var("never_set")][c.draw(3)].clone();
             ("missing_things".into(), single_main(vec![Stmt::SetGlobal("r".into(), e)], vec![]), cfg, None)
         }
+        12 | 13 => {
+            // keys that can not be found again: NaN (never equal to itself) and a table that is
+            // changed after it was used as a key (its hash changes); then every table operation
+            let literal_nan = c.bool();
+            let nan = || if literal_nan { Expr::Real(f64::NAN) } else { bin(BinOp::Div, Expr::Real(0.0), Expr::Real(0.0)) };
+            let mut body = vec![Stmt::SetVar("t".into(), Expr::CreateTable)];
+            if c.bool() {
+                body.push(Stmt::SetProp(int(10), var("t"), int(1)));
+            }
+            let hostile = c.draw(3);
+            match hostile {
+                0 => body.push(Stmt::SetProp(int(1), var("t"), nan())),
+                1 => {
+                    body.push(Stmt::SetVar("k".into(), Expr::CreateTable));
+                    body.push(Stmt::SetProp(int(1), var("t"), var("k")));
+                    body.push(Stmt::SetProp(int(2), var("k"), Expr::Str("x".into())));
+                }
+                _ => {
+                    // both at once, the table key first
+                    body.push(Stmt::SetVar("k".into(), Expr::CreateTable));
+                    body.push(Stmt::SetProp(int(1), var("t"), var("k")));
+                    body.push(Stmt::SetProp(int(1), var("t"), nan()));
+                    body.push(Stmt::Append(int(3), var("k")));
+                }
+            }
+            let tail = c.draw(3);
+            for i in 0..tail {
+                body.push(Stmt::SetProp(int(20 + i as i64), var("t"), int(2 + i as i64)));
+            }
+            let key_again = if hostile == 0 { nan() } else { var("k") };
+            let std1 = |f: &str| Stmt::SetGlobal("r".into(), Expr::Call(format!("std.{}", f), usize::MAX, vec![var("t")]));
+            let cb = |params: &[&str], ret: Expr| Expr::Closure(Rc::new(ClosureDef { id: 7, params: params.iter().map(|s| s.to_string()).collect(), body: vec![Stmt::Return(ret)] }));
+            let op = c.draw(18);
+            body.push(match op {
+                0 => Stmt::SetGlobal("r".into(), Expr::PopTable(Box::new(var("t")))),
+                1 => Stmt::Repeat(int(6), None, Box::new(Stmt::SetGlobal("r".into(), Expr::PopTable(Box::new(var("t")))))),
+                2 => Stmt::SetGlobal("r".into(), Expr::GetProp(Box::new(var("t")), Box::new(key_again))),
+                3 => Stmt::SetProp(int(5), var("t"), key_again),
+                4 => Stmt::SetGlobal("r".into(), Expr::Len(Box::new(var("t")))),
+                5 => Stmt::Repeat(int(5), Some("i".into()), Box::new(Stmt::SetGlobal("r".into(), Expr::Get(Box::new(var("t")), Box::new(var("i")))))),
+                6 => Stmt::ForEach { i: Some("i".into()), k: Some("kk".into()), v: Some("v".into()), iterable: var("t"), body: Box::new(Stmt::SetGlobal("r".into(), var("v"))) },
+                7 => std1("min"),
+                8 => std1("max"),
+                9 => std1("sorted"),
+                10 => std1("to_array"),
+                11 => Stmt::SetGlobal("r".into(), Expr::Call("std.filter".into(), usize::MAX, vec![cb(&["k", "v", "i"], int(1)), var("t")])),
+                12 => Stmt::SetGlobal("r".into(), Expr::Call("std.map".into(), usize::MAX, vec![cb(&["k", "v", "i"], var("k")), var("t")])),
+                13 => Stmt::SetGlobal("r".into(), Expr::Call("std.min_by_key".into(), usize::MAX, vec![cb(&["k", "v"], var("k")), var("t")])),
+                14 => Stmt::SetGlobal("r".into(), Expr::Call("std.sorted_by_key".into(), usize::MAX, vec![cb(&["k", "v"], var("k")), var("t")])),
+                15 => Stmt::SetGlobal("r".into(), bin(BinOp::Equals, var("t"), var("t"))),
+                16 => Stmt::SetProp(int(1), Expr::CreateTable, var("t")),
+                _ => Stmt::Append(int(9), var("t")),
+            });
+            body.push(log_stmt(Expr::Len(Box::new(var("t")))));
+            (format!("unfindable_key{}_op{}", hostile, op), single_main(body, vec![]), cfg, None)
+        }
         _ => {
             // closure re-entry with a tiny call stack
             cfg.calls = 1 + c.draw(4);
@@ -295,7 +351,7 @@ impl Property for C04 {
         "C04"
     }
     fn rule(&self) -> &'static str {
-        "case = one of: (0) arbitrary card tree (any kind in any slot, valid/invalid/dotted/reserved/non-ASCII names, malformed imports, submodules) round-tripped through serde_json and serde_yaml and compiled; (1) structured compile stress: 0-80 globals, 0-300 locals, closure nests naming up to 400 outer variables, card nesting 0-63, submodule depth 55-74 around the recursion limit, super chains longer than the module depth, 0-199 functions; (2) run templates: unbounded recursion on call stacks 1..256, right-nested expressions on value stacks 1..256, i64/f64 boundary arithmetic, huge repeat counts under budgets 1..1000, calling non-functions, bad row indices, self-referencing tables used with == < as key in foreach, reserved-hash keys, budgets 0/1/2, std functions on NaN/mixed/non-table input, missing natives, native re-entry on a tiny call stack; (3) random well-scoped programs under random (budget, value stack, call stack). Each case runs in an isolated worker: no panic, no signal, no hang; where a template forces a specific error kind it is asserted. non-trivial = compile cases that pass both loaders and contain a construct outside the repo tests' shapes, run cases that end in an error kind or touch a boundary value; distinct by hash of the decoded case"
+        "case = one of: (0) arbitrary card tree (any kind in any slot, valid/invalid/dotted/reserved/non-ASCII names, malformed imports, submodules) round-tripped through serde_json and serde_yaml and compiled; (1) structured compile stress: 0-80 globals, 0-300 locals, closure nests naming up to 400 outer variables, card nesting 0-63, submodule depth 55-74 around the recursion limit, super chains longer than the module depth, 0-199 functions; (2) run templates: unbounded recursion on call stacks 1..256, right-nested expressions on value stacks 1..256, i64/f64 boundary arithmetic, huge repeat counts under budgets 1..1000, calling non-functions, bad row indices, self-referencing tables used with == < as key in foreach, reserved-hash keys, budgets 0/1/2, std functions on NaN/mixed/non-table input, missing natives, native re-entry on a tiny call stack, tables holding keys that can not be found again (NaN, a table changed after it was used as a key) under pop / get / set / len / row access / for-each / append / == / use as a key / every std function; (3) random well-scoped programs under random (budget, value stack, call stack). Each case runs in an isolated worker: no panic, no signal, no hang; where a template forces a specific error kind it is asserted. non-trivial = compile cases that pass both loaders and contain a construct outside the repo tests' shapes, run cases that end in an error kind or touch a boundary value; distinct by hash of the decoded case"
     }
     fn assumptions(&self) -> Vec<String> {
         vec![
@@ -316,7 +372,50 @@ impl Property for C04 {
         std::time::Duration::from_secs(10)
     }
     fn crash_context(&self, bytes: &[u8]) -> String {
+        context_of(&decode(bytes))
+    }
+    /// run templates and random programs are replayed from the program itself
+    fn structured(&self, bytes: &[u8]) -> Option<J> {
+        let cfg_json = |c: &RunCfg| json!({"max_instr": c.max_instr, "mem_limit": c.mem_limit, "stack": c.stack, "calls": c.calls});
         match decode(bytes) {
+            Case::RunTemplate(n, p, cfg, e) => Some(json!({"family": "run_template", "template": n, "program": serde_json::to_value(&p).ok()?, "cfg": cfg_json(&cfg), "expect": e})),
+            Case::RunRandom(p, cfg) => Some(json!({"family": "run_random", "program": serde_json::to_value(&p).ok()?, "cfg": cfg_json(&cfg)})),
+            _ => None,
+        }
+    }
+    fn run_structured(&self, j: &J, _tier: Tier) -> Option<CaseOut> {
+        let p: Program = serde_json::from_value(j["program"].clone()).ok()?;
+        let c = &j["cfg"];
+        let cfg = RunCfg { max_instr: c["max_instr"].as_u64()?, mem_limit: c["mem_limit"].as_u64()? as usize, stack: c["stack"].as_u64()? as usize, calls: c["calls"].as_u64()? as usize };
+        let case = match j["family"].as_str()? {
+            "run_template" => {
+                let expect = j["expect"].as_str().and_then(|e| KNOWN_KINDS.iter().find(|k| **k == e).copied());
+                Case::RunTemplate(j["template"].as_str()?.to_string(), p, cfg, expect)
+            }
+            "run_random" => Case::RunRandom(p, cfg),
+            _ => return None,
+        };
+        Some(self.run_case(case))
+    }
+    fn describe(&self, bytes: &[u8]) -> J {
+        match decode(bytes) {
+            Case::Loader(m) => json!({"family": "loader", "module": serde_json::to_value(&m).unwrap_or(J::Null)}),
+            Case::CompileStress(n, _) => json!({"family": "compile_stress", "shape": n}),
+            Case::RunTemplate(n, p, cfg, e) => json!({"family": "run_template", "template": n, "program": program_json(&p), "cfg": format!("{:?}", cfg), "expected": e}),
+            Case::RunRandom(p, cfg) => json!({"family": "run_random", "program": program_json(&p), "cfg": format!("{:?}", cfg)}),
+        }
+    }
+    fn run(&self, bytes: &[u8], _tier: Tier) -> CaseOut {
+        self.run_case(decode(bytes))
+    }
+    fn label_floors(&self) -> Vec<(&'static str, f64)> {
+        vec![("loader", 0.2), ("run_random", 0.15), ("err:Stackoverflow", 0.01), ("err:CallStackOverflow", 0.01), ("err:Timeout", 0.02)]
+    }
+}
+
+fn context_of(case: &Case) -> String {
+    {
+        match case {
             Case::Loader(_) => ":loader".into(),
             Case::CompileStress(n, _) => format!(":stress_{}", n.trim_end_matches(|ch: char| ch.is_ascii_digit() || ch == '+' || ch == '_')),
             Case::RunTemplate(n, p, _, _) => {
@@ -338,16 +437,11 @@ impl Property for C04 {
             Case::RunRandom(..) => ":run_random".into(),
         }
     }
-    fn describe(&self, bytes: &[u8]) -> J {
-        match decode(bytes) {
-            Case::Loader(m) => json!({"family": "loader", "module": serde_json::to_value(&m).unwrap_or(J::Null)}),
-            Case::CompileStress(n, _) => json!({"family": "compile_stress", "shape": n}),
-            Case::RunTemplate(n, p, cfg, e) => json!({"family": "run_template", "template": n, "program": program_json(&p), "cfg": format!("{:?}", cfg), "expected": e}),
-            Case::RunRandom(p, cfg) => json!({"family": "run_random", "program": program_json(&p), "cfg": format!("{:?}", cfg)}),
-        }
-    }
-    fn run(&self, bytes: &[u8], _tier: Tier) -> CaseOut {
-        let case = decode(bytes);
+}
+
+impl C04 {
+    fn run_case(&self, case: Case) -> CaseOut {
+        let ctx = context_of(&case);
         let mut labels = vec![];
         let mut nontrivial = false;
         let mut fail = None;
@@ -410,7 +504,6 @@ impl Property for C04 {
                         // comparing / hashing a self-referencing table can overflow the native stack
                         // (known finding): probe it in a forked child so that the worker survives
                         nontrivial = true;
-                        let ctx = self.crash_context(bytes);
                         let globals = p.globals.clone();
                         match crate::engine::fork_probe(std::time::Duration::from_secs(10), || {
                             let _ = run_vm(&prog, &globals, &cfg);
@@ -472,8 +565,5 @@ impl Property for C04 {
             fingerprint: fp,
             execs: 1,
         }
-    }
-    fn label_floors(&self) -> Vec<(&'static str, f64)> {
-        vec![("loader", 0.2), ("run_random", 0.15), ("err:Stackoverflow", 0.01), ("err:CallStackOverflow", 0.01), ("err:Timeout", 0.02)]
     }
 }
